@@ -51,6 +51,8 @@ def tasks(tier):
         ts.append(Task('props.wire:run', name='C02/wire.driver-step.%d.%s' % (K, ''.join(map(str, fz)) or 'none'), fname='c02_driver_step', kwargs=dict(K=K, frozen=fz), timeout=600))
     for K in (1, 2, 3, 4, 5):
         ts.append(Task('props.wire:run', name='C02/wire.driver-two-steps.%d' % K, fname='c02_driver_two_steps', kwargs=dict(K=K), timeout=600))
+    for K in (1, 2, 3, 4, 5):
+        ts.append(Task('props.C02:t_layout', name='C02/wire.layout.%d' % K, K=K, timeout=600))
     for K in (1, 2, 3):
         ts.append(Task('props.wire:run', name='C02/wire.const-dispatch.%d' % K, fname='c02_const_dispatch', kwargs=dict(K=K), timeout=600))
     ts.append(Task('props.wire:run', name='C02/wire.const-1d-two-steps.4', fname='c02_const_1d_two_steps', kwargs=dict(n=4), timeout=600))
@@ -68,6 +70,23 @@ def tasks(tier):
     ts.append(Task('props.C02:t_pyx', name='C02/pyx-argument-order', timeout=120))
     ts += bounded_tasks('C02', tier)
     return ts
+
+
+def t_layout(K):
+    """what reaches the compiled kernels (which read their arrays through raw pointers in C order) is a fresh C-contiguous copy of the density and a
+    contiguous grid, whatever the memory layout of the caller's arrays: the object-following contract of C20, run here because a density in another
+    layout makes every sweep act on the wrong axes"""
+    from contracts import py_wiring as W
+    rs = W.c20_integrator_alias(K) + (W.c20_integrator_alias(K, const_params=True) if K <= 3 else [])
+    out = []
+    for r in rs:
+        if r['id'].endswith('.returns-fresh'):
+            continue
+        r['id'] = r['id'].replace('C20/', 'C02/', 1).replace('/alias', '/layout')
+        if r.get('finding_key'):
+            r['finding_key'] = r['finding_key'].replace('C20/', 'C02/', 1)
+        out.append(r)
+    return out
 
 
 def t_simple(fname):
